@@ -48,14 +48,15 @@ func init() {
 		Real: srvReal, Stubbed: srvStub,
 		Assume: []string{"2 s of fake time per temporary accept error is the liveness bound for the accept back-off"},
 		Scenarios: []*Scenario{
-			{Name: "faults", Weight: 1, Bubble: true, Run: func(e *Env) {
+			{Name: "faults", Weight: 4, Bubble: true, Run: func(e *Env) {
 				t := e.T
 				cfg := srvCfg{prop: "C15", nConns: t.Range(3, 4), msgsPer: [2]int{1, 5}, parkPct: 25, answerPct: 100,
 					panicPct: 1, malformed: true, rst: true, acceptErrs: true, lateConn: true, extraReg: true}
 				newSrvWorld(e, cfg).run()
 			}},
+			{Name: "sctp-faults", Weight: 1, Bubble: true, Run: c15Sctp},
 		},
-		MustProbes: []string{"late-connection", "malformed-reported", "recovered-panic-logged", "runtime-registration"},
+		MustProbes: []string{"late-connection", "malformed-reported", "recovered-panic-logged", "runtime-registration", "sctp-read-error", "long-accept-error-run"},
 	})
 }
 
